@@ -1427,7 +1427,8 @@ def stream_planewave(ctx):
                'hypercube_grid_with_given_wigner_seitz_radius_and_filling; float comparisons at 1e-9')
     rng = rng_for(ctx.seed, 'c13-pw')
     pi = math.pi
-    grids = [([2], 1.5), ([3], 1.5), ([4], 1.1), ([2, 2], 1.0), ([2, 2], [[1.3, 0.5], [0.0, 0.9]]), ([3], 1.0e5), ([2, 2], 2.0e3)]
+    grids = [([2], 1.5), ([3], 1.5), ([4], 1.1), ([2, 2], 1.0), ([2, 2], 1.7), ([2, 2], [[1.3, 0.5], [0.0, 0.9]]), ([3], 1.0e5),
+             ([2, 2], 2.0e3)]
     if ctx.tier == 'thorough' or ctx.drift:
         grids += [([5], 1.1), ([3, 2], 1.25), ([3, 3], 2.0)]
     for L, scale in grids:
@@ -1585,8 +1586,16 @@ def stream_planewave(ctx):
             cuts = [None] + [(a + b) / 2 for a, b in zip(k2s, k2s[1:])][:3] + [k2s[-1] + 1.0]
             for e_cut in cuts:
                 R0 = V ** (1.0 / dim)
-                for nonper, pcut in ((False, None), (True, None), (True, 0.7), (True, R0), (True, 0.5 * R0), (True, 2.0 * R0), (False, 0.5 * R0)):
-                    cc = dict(c, e_cutoff=e_cut, non_periodic=nonper, period_cutoff=pcut)
+                # boundary values of the explicit cut-off: exactly zero (float, int, numpy scalar) and a tiny positive value are
+                # admissible cut-offs, NOT "use the default": the truncated-Coulomb factor 1 - cos(0 |k|) vanishes
+                degenerate = ((True, 0.0), (True, 0), (True, numpy.float64(0.0)), (True, 1e-12), (False, 0.0), (False, 0))
+                for nonper, pcut in ((False, None), (True, None), (True, 0.7), (True, R0), (True, 0.5 * R0), (True, 2.0 * R0),
+                                     (False, 0.5 * R0)) + degenerate:
+                    if (nonper, pcut) in degenerate and pcut is not None and float(pcut) < 1e-6 and e_cut is not None \
+                            and e_cut != cuts[1]:
+                        continue
+                    cc = dict(c, e_cutoff=e_cut, non_periodic=nonper, period_cutoff=float(pcut) if pcut is not None else None,
+                              period_cutoff_type=type(pcut).__name__)
                     s.count('oracle:cutoffs')
                     Rc = pcut if pcut is not None else V ** (1.0 / dim)
                     ek, ep = {}, {(): 0.0}
